@@ -9,6 +9,7 @@ use mahf::components::mutation::common::InsertionMutation;
 use mahf::components::mutation::*;
 use mahf::components::recombination::de::{DEBinomialCrossover, DEExponentialCrossover};
 use mahf::components::recombination::*;
+use mahf::identifier::A;
 use mahf::state::common::Populations;
 use mahf::{Component, Individual, Problem, Random, SingleObjective, State};
 use rand::{RngCore, SeedableRng};
@@ -69,6 +70,41 @@ fn run<P: Problem<Objective = SingleObjective>>(problem: &P, comp: Result<Box<dy
     r.unwrap_or_else(|| "panic".into())
 }
 
+/// Initialises ALL components on one state (each inserts its own rate / strength states), then executes
+/// them one after the other; prints one standard result per executed component, stopping at the first failure.
+fn run_phases<P: Problem<Objective = SingleObjective>>(problem: &P, comps: Vec<Box<dyn Component<P>>>, rng: Random,
+                   pop: Vec<P::Encoding>, show: impl Fn(&P::Encoding) -> String) -> String {
+    let mut state: State<P> = State::new();
+    state.insert(Populations::<P>::new());
+    state.insert(rng);
+    state.populations_mut().push(pop.into_iter().map(|s| Individual::new(s, SingleObjective::try_from(1.0).unwrap())).collect());
+    let mut phases = vec![];
+    if catch(|| comps.iter().all(|c| c.init(problem, &mut state).is_ok())) != Some(true) {
+        return tagged("phases", ["(e init)".to_string()]);
+    }
+    for c in &comps {
+        let r = catch(|| match c.execute(problem, &mut state) {
+            Err(_) => "(e exec)".to_string(),
+            Ok(()) => {
+                let pops = state.populations();
+                let top: Vec<String> = pops.current().iter().map(|i| show(i.solution())).collect();
+                let ev: Vec<String> = pops.current().iter().map(|i| b(i.is_evaluated())).collect();
+                list(["ok".to_string(), pops.len().to_string(), tagged("ev", ev), tagged("pop", top)])
+            }
+        }).unwrap_or_else(|| "panic".into());
+        let ok = r.starts_with("(ok");
+        phases.push(r);
+        if !ok { break; }
+    }
+    tagged("phases", phases)
+}
+
+/// `(a P1 P2 RM)` / `(g P1 P2 RM)`
+fn triple(x: &Sx) -> (f64, f64, f64) {
+    let v = x.items().unwrap();
+    (v[1].float().unwrap(), v[2].float().unwrap(), v[3].float().unwrap())
+}
+
 pub fn run_component(name: &str, a: &[Sx]) -> String {
     let dim_of = |n: usize| n.max(1);
     match name {
@@ -91,6 +127,48 @@ pub fn run_component(name: &str, a: &[Sx]) -> String {
             let problem = OneMax::new(pop.first().map_or(0, |s| s.len()));
             let c = if name == "mut-bitflip" { BitFlipMutation::new(rm) } else { PartialRandomBitstring::new(p, rm) };
             run(&problem, Ok(c), rng_of(&a[2]), vec![pop], |s| bs(s))
+        }
+        "idm" => {
+            // instance with identifier `A` alone, or `A` next to the `Global` instance of the same component
+            let kind = a[0].atom().unwrap();
+            let both = a[1].atom().unwrap() == "both";
+            let (a1, a2, arm) = triple(&a[2]);
+            let (g1, g2, grm) = triple(&a[3]);
+            match kind {
+                "normal" | "uniform" | "spread" => {
+                    let pop = pop_of(&a[5], fl);
+                    let dim = pop.first().map_or(0, |s| s.len());
+                    let problem = if kind == "spread" { Sphere::new(dim, a1, a2, 0.0) } else { Sphere::new(dim.max(1), -5.0, 5.0, 0.0) };
+                    let mut comps: Vec<Box<dyn Component<Sphere>>> = vec![match kind {
+                        "normal" => NormalMutation::<A>::new_with_id(a1, arm),
+                        "uniform" => UniformMutation::<A>::new_with_id(a1, arm),
+                        _ => PartialRandomSpread::<A>::new_with_id(arm),
+                    }];
+                    if both { comps.push(match kind {
+                        "normal" => NormalMutation::new(g1, grm),
+                        "uniform" => UniformMutation::new(g1, grm),
+                        _ => PartialRandomSpread::new(grm),
+                    }); }
+                    let _ = g2;
+                    run_phases(&problem, comps, rng_of(&a[4]), pop, |s| fs(s))
+                }
+                "bitflip" | "bits" => {
+                    let pop = pop_of(&a[5], bl);
+                    let problem = OneMax::new(pop.first().map_or(0, |s| s.len()));
+                    let mut comps: Vec<Box<dyn Component<OneMax>>> = vec![if kind == "bitflip" {
+                        BitFlipMutation::<A>::new_with_id(arm) } else { PartialRandomBitstring::<A>::new_with_id(a1, arm) }];
+                    if both { comps.push(if kind == "bitflip" { BitFlipMutation::new(grm) } else { PartialRandomBitstring::new(g1, grm) }); }
+                    run_phases(&problem, comps, rng_of(&a[4]), pop, |s| bs(s))
+                }
+                _ => {
+                    let pop = pop_of(&a[5], us);
+                    let n = pop.first().map_or(0, |s| s.len());
+                    let problem = Tsp::new(vec![vec![1.0; n]; n]);
+                    let mut comps: Vec<Box<dyn Component<Tsp>>> = vec![ScrambleMutation::<A>::new_with_id(arm)];
+                    if both { comps.push(ScrambleMutation::new(grm)); }
+                    run_phases(&problem, comps, rng_of(&a[4]), pop, |s| vs(s))
+                }
+            }
         }
         "pmut-swap" | "pmut-scramble" | "pmut-inversion" | "pmut-insertion" | "pmut-transloc" => {
             let pop = pop_of(&a[2], us);
@@ -144,13 +222,23 @@ pub fn run_component(name: &str, a: &[Sx]) -> String {
 }
 
 fn unit(x: f64) -> bool { (0.0..=1.0).contains(&x) }
+fn strength(x: f64) -> bool { x >= 0.0 && x.is_finite() }
 
 pub fn site_of(name: &str, a: &[Sx]) -> String {
     let zero = |i: usize| a[i].atom() == Some("zero");
     let dim = |i: usize| a[i].head().map_or(0, |(_, s)| s.first().map_or(0, |x| x.items().map_or(0, |v| v.len())));
     let (site, ok): (&str, bool) = match name {
-        "mut-normal" => ("NormalMutation", a[0].float().unwrap() >= 0.0 && unit(a[1].float().unwrap())),
-        "mut-uniform" => ("UniformMutation", a[0].float().unwrap() >= 0.0 && unit(a[1].float().unwrap())),
+        "mut-normal" => ("NormalMutation", strength(a[0].float().unwrap()) && unit(a[1].float().unwrap())),
+        "mut-uniform" => ("UniformMutation", strength(a[0].float().unwrap()) && unit(a[1].float().unwrap())),
+        "idm" => {
+            let (a1, _, arm) = triple(&a[2]);
+            let (g1, _, grm) = triple(&a[3]);
+            let kind = a[0].atom().unwrap();
+            let st = |x: f64| !(kind == "normal" || kind == "uniform") || strength(x);
+            (match kind { "normal" => "NormalMutation@id", "uniform" => "UniformMutation@id", "spread" => "PartialRandomSpread@id",
+                          "bitflip" => "BitFlipMutation@id", "bits" => "PartialRandomBitstring@id", _ => "ScrambleMutation@id" },
+             st(a1) && st(g1) && unit(arm) && unit(grm))
+        }
         "mut-spread" => ("PartialRandomSpread", unit(a[2].float().unwrap())),
         "mut-bitflip" => ("BitFlipMutation", unit(a[1].float().unwrap())),
         "mut-bits" => ("PartialRandomBitstring", unit(a[0].float().unwrap()) && unit(a[1].float().unwrap())),
@@ -159,7 +247,8 @@ pub fn site_of(name: &str, a: &[Sx]) -> String {
         "pmut-inversion" => ("InversionMutation", true),
         "pmut-insertion" => ("InsertionMutation", true),
         "pmut-transloc" => ("TranslocationMutation", true),
-        "rec-npoint" => { let n = a[0].nat().unwrap() as usize; ("NPointCrossover", n >= 1 && n < dim(4)) }
+        "rec-npoint" => { let n = a[0].nat().unwrap() as usize;
+            (if n >= 1 && n < dim(4) { "NPointCrossover" } else { "NPointCrossover@n-out-of-range" }, true) }
         "rec-uniform" => ("UniformCrossover", true),
         "rec-cycle" => ("CycleCrossover", true),
         "rec-arith" => ("ArithmeticCrossover", true),
@@ -225,6 +314,22 @@ pub fn generate(a: &Args, rng: &mut Sm, emit: &mut dyn FnMut(String)) {
                 // scramble
                 let t = g.tagged_vecs(n, dim);
                 emit(format!("(pmut-scramble {} {} {})", fx(rm), g.seed(), pu(&t)));
+            }
+            // identified instances (`new_with_id::<A>`): alone, and next to the Global instance with a
+            // DIFFERENT rate / strength — each instance must follow its own parameters
+            for (arm, grm) in [(0.0, 1.0), (1.0, 0.0), (0.5, 0.5)] {
+                let n = g.rng.range(1, 3) as usize;
+                let p = g.reals(n, dim);
+                let q = g.bits(n, dim);
+                let t = g.tagged_vecs(n, dim);
+                for mode in ["alone", "both"] {
+                    emit(format!("(idm normal {} (a {} {} {}) (g {} {} {}) {} {})", mode, fx(0.1), fx(0.0), fx(arm), fx(25.0), fx(0.0), fx(grm), g.seed(), pf(&p)));
+                    emit(format!("(idm uniform {} (a {} {} {}) (g {} {} {}) {} {})", mode, fx(0.1), fx(0.0), fx(arm), fx(25.0), fx(0.0), fx(grm), g.seed(), pf(&p)));
+                    emit(format!("(idm spread {} (a {} {} {}) (g {} {} {}) {} {})", mode, fx(-5.0), fx(5.0), fx(arm), fx(-5.0), fx(5.0), fx(grm), g.seed(), pf(&p)));
+                    emit(format!("(idm bitflip {} (a {} {} {}) (g {} {} {}) {} {})", mode, fx(0.5), fx(0.0), fx(arm), fx(0.5), fx(0.0), fx(grm), g.seed(), pb(&q)));
+                    emit(format!("(idm bits {} (a {} {} {}) (g {} {} {}) {} {})", mode, fx(1.0), fx(0.0), fx(arm), fx(0.0), fx(0.0), fx(grm), g.seed(), pb(&q)));
+                    emit(format!("(idm scramble {} (a {} {} {}) (g {} {} {}) {} {})", mode, fx(0.0), fx(0.0), fx(arm), fx(0.0), fx(0.0), fx(grm), g.seed(), pu(&t)));
+                }
             }
             // permutation mutations without a rate
             for _ in 0..4 {
@@ -294,6 +399,20 @@ pub fn generate(a: &Args, rng: &mut Sm, emit: &mut dyn FnMut(String)) {
         emit(format!("(pmut-scramble {} 1 {})", fx(bad), pu(&t)));
     }
     emit(format!("(mut-uniform {} {} 1 {})", fx(-1.0), fx(0.5), pf(&p)));
+    // corners of the guards: negative / infinite / NaN strength and rate
+    for st in [-1.0, f64::INFINITY, f64::NEG_INFINITY, f64::NAN] { for rm in [0.0, 0.5, 1.0] {
+        emit(format!("(mut-normal {} {} 1 {})", fx(st), fx(rm), pf(&p)));
+        emit(format!("(mut-uniform {} {} 1 {})", fx(st), fx(rm), pf(&p)));
+    } }
+    for bad in [f64::NAN, f64::INFINITY, f64::NEG_INFINITY, -0.0] {
+        emit(format!("(mut-normal {} {} 1 {})", fx(1.0), fx(bad), pf(&p)));
+        emit(format!("(mut-uniform {} {} 1 {})", fx(1.0), fx(bad), pf(&p)));
+        emit(format!("(mut-spread {} {} {} 1 {})", fx(-5.0), fx(5.0), fx(bad), pf(&p)));
+        emit(format!("(mut-bitflip {} {} 1 {})", fx(0.5), fx(bad), pb(&q)));
+        emit(format!("(mut-bits {} {} 1 {})", fx(0.5), fx(bad), pb(&q)));
+        emit(format!("(pmut-scramble {} 1 {})", fx(bad), pu(&t)));
+    }
+    for f in [f64::NAN, f64::INFINITY] { emit(format!("(demut 1 {} {})", fx(f), pf(&g.reals(3, 2)))); }
     for (y, f) in [(0u64, 1.0), (3, 1.0), (1, -0.5), (1, 2.5), (1, 0.0)] {
         emit(format!("(demut {} {} {})", y, fx(f), pf(&g.reals(3, 2))));
     }
